@@ -14,13 +14,15 @@ from .c04 import host_consts, pmap
 from .core import Ctx
 
 KINDS = ("error", "rstack", "silent", "lost", "eof")
-WORKLOADS = ("idle", "one", "three", "reset", "late_issue")
+WORKLOADS = ("idle", "one", "three", "reset", "late_issue", "scan", "scanned_one")
 
 
 def run_case(case):
     """case = (ver, registered, workload, kind, k, placement, code)  k = wire-event index after which the failure
     is injected (None: fault-free reference run); kind 'close' = deliberate close"""
-    ver, registered, workload, kind, k, placement, code = case
+    ver, registered, workload, kind, k, placement, code = case[:7]
+    # scan workload: when the startScan COMMAND had been answered before the failure came, the list operation goes on waiting for its completion
+    # callback, which has no timeout of its own (C17) - that is not a command call in progress, and it is left out of the pending set
 
     async def main(loop):
         rig = stackrig.StackRig(loop, ver, "/dev/ttyFAKE0", 1)
@@ -38,6 +40,22 @@ def run_case(case):
                     ev({"a": "request"})
                     rig.failed_at = loop.ms
             ezsp.add_callback(cb)
+        import bellows.types as t_
+        if workload in ("scan", "scanned_one"):
+            # a list command (energy scan): the NCP answers, reports one result and the completion
+            cmds_ = rig.peer.ezsp.cmds
+            sty = list(cmds_["scanCompleteHandler"][2].values())[1]
+            rig.peer.ezsp.script["startScan"] = ("seq", "reply", ("callback", "energyScanResultHandler", [11, -40]),
+                                                 ("callback", "scanCompleteHandler", [0, sty(0)]))
+
+            def scan():
+                return ezsp.startScan(t_.EzspNetworkScanType.ENERGY_SCAN, t_.Channels.ALL_CHANNELS, 3)
+        if workload == "scanned_one":
+            # the list command has COMPLETED before anything is counted or injected: its temporary callback is gone again
+            ts = asyncio.ensure_future(scan())
+            await rig.run_until(ts, 30)
+            if ts.exception() is not None:
+                raise RuntimeError(f"reference scan failed: {ts.exception()!r}")
         # ---- wire-event counting and injection
         state = {"n": 0, "armed": k is not None, "done": False}
 
@@ -81,7 +99,6 @@ def run_case(case):
         rig.tr.on_write = on_write
         # ---- workload
         calls = {}
-        import bellows.types as t_
 
         def issue(c, coro_fn):
             async def call():
@@ -91,11 +108,15 @@ def run_case(case):
                     res = "ok"
                 except BaseException as e:  # noqa
                     res = "exc:" + type(e).__name__
-                ev({"a": "complete", "c": c, "res": res})
+                if not state.get("ended"):
+                    ev({"a": "complete", "c": c, "res": res})
             calls[c] = asyncio.Task(call(), loop=loop, eager_start=True)
         if k == 0 and state["armed"]:
             inject()
-        if workload == "one":
+        if workload == "scan":
+            issue(1, scan)
+            state["scan_regs"] = [reg[-1] for reg in ezsp._protocol._awaiting.values()]     # the registration of the scan's own command
+        elif workload in ("one", "scanned_one"):
             issue(1, lambda: ezsp.getConfigurationValue(t_.EzspConfigId.CONFIG_STACK_PROFILE))
         elif workload == "three":
             issue(1, lambda: ezsp.getConfigurationValue(t_.EzspConfigId.CONFIG_STACK_PROFILE))
@@ -163,7 +184,17 @@ def run_case(case):
             if n["o"] == "raised":
                 events.append({"a": "raised", "where": n["where"], "exc": n["exc"], "t": n["t"]})
         pending = sorted(c for c, t in calls.items() if not t.done())
-        events.append({"a": "end", "pending": pending, "running": 1 if ezsp.is_ezsp_running else 0, "t": loop.ms, "wire_events": state["n"]})
+        scanwait = 0
+        if workload == "scan" and pending == [1]:
+            # still registered with an unresolved future = the COMMAND is outstanding (that would be a hang); otherwise the command was
+            # answered and the list operation waits for its completion callback
+            outstanding = any(not f.done() for f in state.get("scan_regs", []))
+            if not outstanding:
+                pending, scanwait = [], 1
+                state["ended"] = True
+                calls[1].cancel()
+        events.append({"a": "end", "pending": pending, "running": 1 if ezsp.is_ezsp_running else 0, "t": loop.ms, "wire_events": state["n"],
+                       "scanwait": scanwait})
         return events
     return vloop.run(main)
 
@@ -215,7 +246,7 @@ def run(ctx: Ctx):
     traces = pmap(run_case, cases, chunksize=8)
     ctx.evaluations = len(traces)
     ctx.distinct_nontrivial = len({str(c) for c in cases})
-    ctx.rule = ("after bring-up to the given version: workloads {idle, one command, three commands (one in flight, two queued), EZSP.reset() in progress, "
+    ctx.rule = ("after bring-up to the given version: workloads {idle, one command, three commands (one in flight, two queued), EZSP.reset() in progress, an energy scan (list command) in progress, one command after a completed scan, "
                 "command issued after the failure} x failure kinds {ERROR(code), unsolicited RSTACK(code != software), silent NCP, connection_lost(exc), EOF, "
                 "deliberate close} injected after every wire event of the fault-free run (0..n+1), as its own callback and queued right behind the event, "
                 "with and without a registered application callback; distinct = distinct case")
